@@ -180,7 +180,11 @@ def prior_kernel(prior):
 # ---------------------------------------------------------------------------- generators
 APPS = ["web", "db", "cli"]
 TIERS = ["fe", "be"]
-CIDRS = ["10.0.0.0/24", "10.0.1.0/24", "192.168.0.0/16", "10.0.0.8/30", "10.0.0.5/32", "172.16.0.0/12", "10.0.1.128/25"]
+CIDRS = ["10.0.0.0/24", "10.0.1.0/24", "192.168.0.0/16", "10.0.0.8/30", "10.0.0.5/32", "172.16.0.0/12", "10.0.1.128/25",
+         "172.20.0.0/22", "172.20.0.0/23"]
+# texts that differ only in their last characters (a member comparison that normalises or trims must still tell them apart)
+NEAR_OCTETS = [2, 3, 12, 13, 22, 23, 32, 33]
+NEAR_CIDR = {"172.20.0.0/22": "172.20.0.0/23", "172.20.0.0/23": "172.20.0.0/22"}
 
 
 def gen_sel(rng, allow_empty=True):
@@ -226,7 +230,7 @@ def gen_policy(rng, name, nss):
 
 def gen_pod(rng, name, nss, used_ips):
     while True:
-        ip = "10.0.%d.%d" % (rng.randrange(2), rng.randrange(2, 14))
+        ip = "10.0.%d.%d" % (rng.randrange(2), rng.choice(NEAR_OCTETS) if rng.random() < 0.5 else rng.randrange(2, 14))
         if ip not in used_ips:
             break
     used_ips.add(ip)
@@ -276,8 +280,15 @@ def gen_mutations(rng, ctx, w, used, n):
         elif k < 0.45 and w["pols"]:
             key = rng.choice(sorted(w["pols"]))
             x = copy.deepcopy(w["pols"][key])
-            which = rng.choice(["sel", "rule", "swap-cidr"])
-            if which == "sel":
+            which = rng.choice(["sel", "rule", "swap-cidr", "mask"])
+            if which == "mask":
+                for r in x["ingress"] + x["egress"]:
+                    for q in r["peers"]:
+                        if q.get("cidr") in NEAR_CIDR:
+                            q["cidr"] = NEAR_CIDR[q["cidr"]]          # same rule slot, same address, another prefix length
+                            q["except"] = []
+                            ctx.dist("mut:cidr-mask-changed")
+            elif which == "sel":
                 x["sel"] = gen_sel(rng)
             elif which == "rule" and (not x["types"] or "Ingress" in x["types"]):
                 x["ingress"] = [gen_rule(rng) for _ in range(rng.choice([0, 1, 2]))]
@@ -295,8 +306,15 @@ def gen_mutations(rng, ctx, w, used, n):
             p = w["pods"].pop(key)
             steps.append({"op": "del_pod", "ns": p["ns"], "name": p["name"]})
             ctx.dist("mut:del-pod")
-            if rng.random() < 0.4:          # re-created under the same name with another address
+            if rng.random() < 0.5:          # re-created under the same name with another address
                 q = gen_pod(rng, p["name"], [p["ns"]], used)
+                if p.get("ip") and rng.random() < 0.6:
+                    # ... whose text differs from the old one only in its last characters
+                    pre = p["ip"].rsplit(".", 1)[0]
+                    cand = [pre + ".%d" % o for o in NEAR_OCTETS if pre + ".%d" % o not in used]
+                    if cand:
+                        q["ip"] = rng.choice(cand)
+                        used.add(q["ip"])
                 q["labels"] = p["labels"]
                 w["pods"][key] = q
                 steps.append({"op": "set_pod", "pod": q})
